@@ -8,7 +8,7 @@ CLAIMS = {
  "C13": {
   "text": "Proved in Lean for every tree satisfying the array / map invariants (several statements for ANY tree): each enumeration flavour yields exactly toList - arrays in index order, maps in the canonical digest order with full collisions in insertion order; range iteration is the slice and invalid ranges get the exact error; the loaded-value iterators equal toList when everything is loaded and yield a Sublist for any set of loaded slabs; bulk pop is the reverse; overwriting the current element during mutable iteration neither skips nor repeats. Tie: ~2800 iterator runs per seed replayed on the model incl. partial loads read from the real storage.",
   "design_ref": "DESIGN.md 7/C13, 13",
-  "note": "Partial: mutation of nested containers during iteration is oracle-only; map read-only iteration needs leafIdsOk (slab-ID consistency, evaluated on every iterated tree).",
+  "note": "Partial: mutation of nested containers during iteration is oracle-only; map read-only iteration needs the slab-identifier clause MapIdsOk, which is proved preserved by every map operation and discharged for every history from NewMap (C13.map_ro_iter_history).",
   "technique": "Lean 4 proofs over transcribed iterator state machines (structural recursion / bounded fuel) + iterator-output correspondence with partial loads",
  },
  "C02": {
